@@ -426,6 +426,24 @@ func (g *Gen) writtenGlobals() map[string]bool {
 							g.wGlobals["G|"+gl.Pkg.Pkg.Path()+"."+gl.Name()] = true
 						}
 					}
+					// the address of the variable (or of a part of it) escaping into anything but a load counts as a
+					// possible write: calls, stores of the address, conversions to interface, slicing of an array
+					switch x := in.(type) {
+					case *ssa.UnOp, *ssa.FieldAddr, *ssa.IndexAddr, *ssa.DebugRef:
+						_ = x
+					default:
+						for _, op := range in.Operands(nil) {
+							if op == nil || *op == nil {
+								continue
+							}
+							if st, ok := in.(*ssa.Store); ok && *op == st.Addr {
+								continue
+							}
+							if gl := rootGlobal(*op); gl != nil {
+								g.wGlobals["G|"+gl.Pkg.Pkg.Path()+"."+gl.Name()] = true
+							}
+						}
+					}
 				}
 			}
 		}
